@@ -21,13 +21,14 @@ import (
 // ---------------------------------------------------------------- worker side
 
 type violRec struct {
-	Space  string `json:"space"`
-	Index  int    `json:"index"`
-	Text   string `json:"text"`
-	Key    string `json:"key"`
-	Sub    string `json:"sub"`
-	Sig    string `json:"sig"`
-	Detail string `json:"detail"`
+	Space   string `json:"space"`
+	Index   int    `json:"index"`
+	Text    string `json:"text"`
+	Key     string `json:"key"`
+	Sub     string `json:"sub"`
+	Sig     string `json:"sig"`
+	Detail  string `json:"detail"`
+	Choices []int  `json:"choices,omitempty"`
 }
 
 type shardOut struct {
@@ -84,7 +85,7 @@ func (o *shardOut) add(sp *Space, i int, r Result) {
 			}
 		}
 		if n < maxViolsPerSigPerShard {
-			o.Viols = append(o.Viols, violRec{sp.Name, i, text, key, r.Viol.Sub, r.Viol.Sig, r.Viol.Detail})
+			o.Viols = append(o.Viols, violRec{sp.Name, i, text, key, r.Viol.Sub, r.Viol.Sig, r.Viol.Detail, r.Viol.Choices})
 		}
 	}
 }
@@ -819,6 +820,11 @@ func Replay(path string) int {
 			fmt.Fprintln(os.Stderr, "case not found in the current enumeration:", rf.Text)
 			return 2
 		}
+	}
+	if rf.Choices != nil {
+		b, _ := json.Marshal(rf.Choices)
+		os.Setenv("VERIF_REPLAY_CHOICES", string(b))
+		fmt.Printf("replaying the recorded choice vector / schedule %v only (no exploration)\n", rf.Choices)
 	}
 	fails := 0
 	var last string
